@@ -115,7 +115,7 @@ func (m *mon) wishartRand(a *acc, idx int) {
 	}
 	where := fmt.Sprintf("distmat.Wishart.%s case %d dim=%d nu=%g N=%d", method, idx, dim, nu, N)
 	m.c.LastCase(where)
-	w, _ := distmat.NewWishart(v.sym(), nu, m.c.RNG("mat.wishart.src", idx))
+	w, _ := distmat.NewWishart(v.sym(), nu, m.src("mat.wishart.src", idx))
 	// directions for the exact projection law  w'Xw / w'Vw ~ chi^2_nu
 	var dirs [][]float64
 	for i := 0; i < dim; i++ {
@@ -191,7 +191,8 @@ func (m *mon) wishartRand(a *acc, idx int) {
 		a.near("mat.wishart.dkw", "distmat.Wishart."+method+"|"+cl+"-quadratic-form|empirical-CDF-outside-DKW-band", fmt.Sprintf("%s dir=%v sup at %g", where, d, at), D, 0, eps)
 	}
 	// sample mean of every entry inside 8 standard errors: Var(X_ij) = nu (v_ij^2 + v_ii v_jj)
-	for i := 0; i < dim; i++ {
+	// (seeded pass only: the nil-source pass keeps to non-asymptotic bands)
+	for i := 0; i < dim && !m.nilSrc; i++ {
 		for j := i; j < dim; j++ {
 			sd := math.Sqrt(nu * (v[i][j]*v[i][j] + v[i][i]*v[j][j]) / float64(N))
 			a.near("mat.wishart.mean8", "distmat.Wishart."+method+"|entry|sample-mean-outside-8-sigma", fmt.Sprintf("%s entry (%d,%d)", where, i, j), sum[i][j]/float64(N), nu*v[i][j], 8*sd)
@@ -269,7 +270,7 @@ func (m *mon) unitVector(a *acc, idx int) {
 	N := m.c.Pick(20000, 100000)
 	where := fmt.Sprintf("distmat.UnitVector dim=%d N=%d case %d", d, N, idx)
 	m.c.LastCase(where)
-	u := distmat.NewUnitVector(m.c.RNG("mat.unit.src", idx))
+	u := distmat.NewUnitVector(m.src("mat.unit.src", idx))
 	v := mat.NewVecDense(d, nil)
 	first := make([]float64, N)
 	for t := 0; t < N; t++ {
